@@ -189,4 +189,3 @@ def run(ctx):
   ctx.check(not bad, 'C09.who', con, 'all %d in-package uses of config_scope are `with` items' % len(uses),
             'config_scope(...) used outside a with statement at %s' % bad, bad[0] if bad else f.loc(),
             sites=len(uses), instance='with-only')
-  ctx.expect_at_least('in-package uses of config_scope', len(uses), 1)
